@@ -141,11 +141,25 @@ def fn_renames(d):
         return {}
     roots = {f["id"]: f for f in d["fns"] if f["kind"] in ("fn", "method") and not f.get("parent")}
     gone = [g for g in reff if g not in roots and _plain(g)]
-    new = [n for n in roots if n not in reff and _plain(n) and not roots[n].get("impl_trait")]
+
+    mods = {a["path"].split("::")[0] for a in d["adts"] if "::" in a["path"] and _plain(a["path"])}
+
+    def private_trait_method(n):
+        # `<Owner as Trait>::name` of a trait declared in this crate and not exported: a private extension trait
+        f = roots[n]
+        tr = f.get("impl_trait") or ""
+        return bool(n.startswith("<") and "::_::" not in n and tr and "<" not in tr and not f.get("exported")
+                    and ("::" not in tr or tr.split("::")[0] in mods))
+    new = [n for n in roots if n not in reff and ((_plain(n) and not roots[n].get("impl_trait")) or private_trait_method(n))]
     m = {}
     for n in new:
         sk = _sig_key(roots[n])
         cands = [g for g in gone if reff[g] == sk]
+        if not cands:
+            # a method turned into a free / associated function or moved into a private extension trait (or back): the name,
+            # the parameter types (receiver included) and the result type are all unchanged
+            tail = sk.split(" | ", 1)[1]
+            cands = [g for g in gone if _base(g) == _base(n) and reff[g].split(" | ", 1)[1] == tail]
         if not cands:
             # a free function that moved to another module keeps its name and its signature
             tail = sk.split(" | ", 1)[1]
@@ -165,6 +179,121 @@ def fn_renames(d):
                 continue
             m.setdefault(g, []).append(n)
     return {ns[0]: g for g, ns in m.items() if len(ns) == 1}
+
+
+def _fix_owner(d, fns):
+    """after the ids were rewritten: a function that was matched across owners gets the reference's owner back"""
+    reff = _ref()[1]
+    adts = {a["path"] for a in d["adts"]}
+    targets = set(fns.values())
+    for f in d["fns"]:
+        if f["id"] in targets:
+            owner = reff[f["id"]].split(" | ", 1)[0]
+            if " as " in owner:
+                continue
+            if owner in adts:
+                f["impl_self"], f["impl_trait"], f["kind"] = owner, None, "method"
+            else:
+                f["impl_self"], f["impl_trait"], f["kind"] = None, None, "fn"
+
+
+def _ref_inputs(sk):
+    """parameter types of a reference signature key `owner | (a, b, c) -> out` (top-level commas only)"""
+    body = sk.split(" | ", 1)[1]
+    depth, i0, out, i = 0, 1, [], 0
+    assert body[0] == "("
+    for i, ch in enumerate(body):
+        if ch in "(<[":
+            depth += 1
+        elif ch in ")>]":
+            depth -= 1
+            if depth == 0 and ch == ")":
+                if body[i0:i].strip():
+                    out.append(body[i0:i].strip())
+                break
+        elif ch == "," and depth == 1:
+            out.append(body[i0:i].strip())
+            i0 = i + 1
+    return out, body[i + 1:]
+
+
+def _embed(ref, cur, leftmost=True):
+    pos, j = [], (0 if leftmost else len(cur) - 1)
+    seq = ref if leftmost else list(reversed(ref))
+    for t in seq:
+        while 0 <= j < len(cur) and cur[j] != t:
+            j += 1 if leftmost else -1
+        if not (0 <= j < len(cur)):
+            return None
+        pos.append(j)
+        j += 1 if leftmost else -1
+    return pos if leftmost else list(reversed(pos))
+
+
+def param_canon(d):
+    """A private function whose parameters were reordered, or that gained parameters between the old ones, is rewritten so
+    that the reference's parameters come first, in the reference's order (the added ones follow): the argument locals of
+    its body and the argument lists of its call sites are permuted alike.  Only when the reference's parameter types embed
+    into the current ones in exactly one way.  -> {fn id: [new position of each current parameter]}"""
+    reff = _ref()[1]
+    done = {}
+    by_id = {f["id"]: f for f in d["fns"]}
+    for fid, f in by_id.items():
+        if fid not in reff or f.get("parent") or f["kind"] not in ("fn", "method") or f.get("exported"):
+            continue
+        try:
+            rin, _ = _ref_inputs(reff[fid])
+        except Exception:
+            continue
+        cur = list(f.get("inputs") or [])
+        if rin == cur or len(rin) > len(cur) or len(cur) != f.get("arg_count"):
+            continue
+        if sorted(rin) == sorted(cur):
+            # a pure reordering: every type must be distinct for the permutation to be determined
+            if len(set(cur)) != len(cur):
+                continue
+            order = [cur.index(t) for t in rin]
+        else:
+            a, b = _embed(rin, cur, True), _embed(rin, cur, False)
+            if a is None or a != b:
+                continue
+            order = a + [i for i in range(len(cur)) if i not in a]
+        if order == list(range(len(cur))):
+            continue
+        newpos = {old + 1: new + 1 for new, old in enumerate(order)}      # argument locals are 1-based
+
+        def walk(o):
+            if isinstance(o, dict):
+                if isinstance(o.get("local"), int) and o["local"] in newpos:
+                    o["local"] = newpos[o["local"]]
+                for v in o.values():
+                    walk(v)
+            elif isinstance(o, list):
+                for v in o:
+                    walk(v)
+        walk(f["blocks"])
+        walk(f.get("debug") or [])
+        f["inputs"] = [cur[i] for i in order]
+        locs = f.get("locals") or []
+        args = {l["i"]: l for l in locs if 1 <= l["i"] <= len(cur)}
+        if len(args) == len(cur):
+            for old, new in newpos.items():
+                args[old]["i"] = new
+                if "arg" in args[old]:
+                    args[old]["arg"] = new
+            f["locals"] = sorted(locs, key=lambda l: l["i"])
+        for dv in f.get("debug") or []:
+            if dv.get("arg") in newpos:
+                dv["arg"] = newpos[dv["arg"]]
+        for g in d["fns"]:
+            for b in g.get("blocks") or []:
+                t = b["term"]
+                if t["k"] == "call" and t["func"]["k"] == "const" and "fn" in t["func"]:
+                    fj = t["func"]["fn"]
+                    if fid in (fj.get("path"), fj.get("resolved")) and len(t["args"]) == len(cur):
+                        t["args"] = [t["args"][i] for i in order]
+        done[fid] = order
+    return done
 
 
 def canonicalise(raw, d):
@@ -196,7 +325,11 @@ def canonicalise(raw, d):
     if fns:
         raw = _subst(raw, list(fns.items()))
         d = json.loads(raw)
+        _fix_owner(d, fns)
         done.update(fns)
+    perm = param_canon(d)
+    for fid, order in perm.items():
+        done[fid + "(params)"] = order
     return raw, d, done
 
 
